@@ -38,6 +38,11 @@ pub enum AOp {
     /// `next_ref()` and keep its read guard across k scheduler steps
     NextRefHold(u8),
     NextNow,
+    /// poll a `next()` future once with a waker of its own (not the task's) and drop it; if that
+    /// poll was Pending, take the value with `next_now()`. By C02 (which C16 extends to this
+    /// flavour) the waker given to a Pending poll is woken by the next notifying update, whatever
+    /// other subscriber methods are called afterwards.
+    SidePollThenNextNow,
     SubGet,
     /// continue with a clone of the subscriber and drop the original (with its prepared, possibly
     /// queued, lock acquisition: a cancelled acquisition)
@@ -72,6 +77,14 @@ pub struct ACase {
     /// every task is polled with its one waker (as an executor does) instead of a fresh one per poll
     #[serde(default)]
     pub same_waker: bool,
+    /// Known finding KF-D11 (never set by the generator, only by the recorded scenario): after
+    /// `SidePollThenNextNow` the task keeps the subscriber whose prepared lock acquisition was
+    /// polled once and never again — the read permit granted to it when the writer releases stays
+    /// parked and blocks every writer (and, behind them, the subscriber's own later reads).
+    /// Generated cases go on with a clone of the subscriber instead (dropping the original releases
+    /// the acquisition).
+    #[serde(default)]
+    pub kf_d11_keep_parked_acquisition: bool,
     pub unique: bool,
     pub initial: u64,
     pub tasks: Vec<TaskSpec>,
@@ -87,6 +100,9 @@ struct Sh {
     cur: RefCell<Vec<Option<(String, Option<usize>)>>>,
     violation: RefCell<Option<(String, String)>>,
     held: Cell<u32>,
+    /// notifying updates performed so far
+    updates: Cell<u64>,
+    kf_d11_keep: bool,
 }
 
 impl Sh {
@@ -97,6 +113,14 @@ impl Sh {
     }
     fn rec(&self, tid: usize, op: HOp, inv: u64, res: Res) {
         let ret = self.stamp();
+        let notifying = match (&op, &res) {
+            (HOp::Set(_), _) | (HOp::Take, _) | (HOp::Update(_), _) | (HOp::Rmw(_), _) | (HOp::UpdateIf(_, true), _) => true,
+            (HOp::SetIfNotEq(_), Res::Opt(Some(_))) => true,
+            _ => false,
+        };
+        if notifying {
+            self.updates.set(self.updates.get() + 1);
+        }
         if std::env::var_os("TASKSIM_TRACE").is_some() {
             eprintln!("  t{tid} {:?} -> {:?} [{inv}..{ret}]", op, res);
         }
@@ -344,6 +368,46 @@ async fn run_task(tid: usize, ops: Vec<AOp>, mut owner: Option<Owner>, mut sub: 
                     sh.rec(tid, HOp::NextNow(*id), inv, Res::Val(v));
                 }
             }
+            AOp::SidePollThenNextNow => {
+                if let Some((id, mut s)) = sub.take() {
+                    let (flag, wk) = wake::fresh();
+                    let c0 = sh.updates.get();
+                    let first = {
+                        let mut fut = pin!(s.next());
+                        let mut cx = Context::from_waker(&wk);
+                        fut.as_mut().poll(&mut cx)
+                        // the future is dropped here (a cancelled call if it was Pending)
+                    };
+                    match first {
+                        Poll::Ready(r) => {
+                            sh.rec(tid, HOp::Next(id), inv, Res::Poll(r.map_or(PollR::End, PollR::Some)));
+                            sub = Some((id, s));
+                        }
+                        Poll::Pending => {
+                            let inv2 = sh.stamp();
+                            sh.doing(tid, "NextNow (after a Pending poll with another waker)", None);
+                            let v = s.next_now().await;
+                            sh.rec(tid, HOp::NextNow(id), inv2, Res::Val(v));
+                            if sh.updates.get() > c0 && !flag.is_woken() {
+                                sh.violate("pending_poll_waker_never_woken", format!("subscriber {id}: a poll of next() returned Pending, a notifying update followed, next_now() returned {v}, but the waker given to the Pending poll was never woken"));
+                            }
+                            if sh.kf_d11_keep {
+                                sub = Some((id, s));
+                            } else {
+                                // known finding KF-D11: the prepared acquisition may now hold a read
+                                // permit that nothing will ever use; go on with a clone
+                                let inv3 = sh.stamp();
+                                let id2 = sh.next_sub.get();
+                                sh.next_sub.set(id2 + 1);
+                                let c = s.clone();
+                                drop(s);
+                                sub = Some((id2, c));
+                                sh.rec(tid, HOp::SubClone { from: id, id: id2 }, inv3, Res::Unit);
+                            }
+                        }
+                    }
+                }
+            }
             AOp::SubGet => {
                 if let Some((_, s)) = sub.as_ref() {
                     let v = s.get().await;
@@ -403,7 +467,7 @@ pub fn run_async_case(case: &ACase) -> Outcome {
     let mut counters = Counters::default();
     let mut fp = Fingerprint::default();
     let n = case.tasks.len();
-    let sh = Rc::new(Sh { seq: Cell::new(0), next_sub: Cell::new(0), next_drop: Cell::new(0), hist: RefCell::new(Vec::new()), cur: RefCell::new(vec![None; n]), violation: RefCell::new(None), held: Cell::new(0) });
+    let sh = Rc::new(Sh { seq: Cell::new(0), next_sub: Cell::new(0), next_drop: Cell::new(0), hist: RefCell::new(Vec::new()), cur: RefCell::new(vec![None; n]), violation: RefCell::new(None), held: Cell::new(0), updates: Cell::new(0), kf_d11_keep: case.kf_d11_keep_parked_acquisition });
     let mut spec = Spec { value: case.initial, version: 1, owners: 0, closed: false, releasing: 0, observed: Vec::new() };
     let mut sim_steps = 0u64;
     let mut violation: Option<Violation> = None;
@@ -711,7 +775,13 @@ pub fn gen_async_case(rng: &mut Rng) -> ACase {
                         0..=2 => AOp::Next,
                         3 => AOp::NextCancel(1 + rng.below(2) as u8),
                         4 => AOp::NextRefHold(rng.below(3) as u8),
-                        5 => AOp::NextNow,
+                        5 => {
+                            if rng.chance(1, 2) {
+                                AOp::NextNow
+                            } else {
+                                AOp::SidePollThenNextNow
+                            }
+                        }
                         6 => AOp::SubGet,
                         7 => AOp::CloneSub { reset: rng.chance(1, 3) },
                         _ => AOp::Next,
@@ -730,5 +800,5 @@ pub fn gen_async_case(rng: &mut Rng) -> ACase {
             _ => AStep::Settle,
         })
         .collect();
-    ACase { main_owner: !unique && rng.chance(1, 2), same_waker: rng.chance(1, 2), unique, initial: 1, tasks, steps }
+    ACase { main_owner: !unique && rng.chance(1, 2), same_waker: rng.chance(1, 2), kf_d11_keep_parked_acquisition: false, unique, initial: 1, tasks, steps }
 }
